@@ -85,7 +85,7 @@ var cfgs = map[string]*propCfg{
 	"C18": {Profile: "codecs", QuickCases: 9600, ThoroughCases: 120000, QuickSecs: 120, ThoroughSecs: 1800, Level: "exploration",
 		Rule: "case = 2-6 tasks making 1-7 groups of calls each on SHARED instances (frame codecs with no/LZ4/Snappy compressor incl. raw decoding and conversion, segment codecs without/with LZ4, both compressors in both formats, the datacodec package singletons and shared list/set/map/tuple codecs) with generated frames, payloads and values; every statement of the codec packages is a scheduling point and the interleaving is drawn from the tape. 40% of the cases are focused on one family (one frame codec, one segment codec, one compressor, the value codecs) with more tasks and optionally growing payload sizes. First use is drawn: instances warmed by a sequential pass, fresh instances (reference pass on twins), or no reference pass at all so that instances AND package-level state are cold when the tasks start (package-level variables of the code under test are restored to their post-initialisation values before every run). Oracle: each call's result (bytes, decoded frame/value or error text; compress/decompress must round-trip) equals the result of the same call in a sequential pass, and a sequential pass after the concurrent phase still agrees. distinct = distinct event-log fingerprints; non-trivial = the concurrent phase contained at least one switch between tasks that were both inside repository code",
 		Assumptions: []string{"the data-race clause is checked by a supplementary, non-deterministic run of the same workload on the un-instrumented tree under the Go race detector (labelled in the evidence); the deterministic scheduler cannot observe races that never change a result"}},
-	"C15": {Profile: "client", QuickCases: 960, ThoroughCases: 60000, QuickSecs: 120, ThoroughSecs: 1800, Level: "exploration",
+	"C15": {Profile: "client", QuickCases: 1600, ThoroughCases: 60000, QuickSecs: 120, ThoroughSecs: 1800, Level: "exploration",
 		Rule: "case = three seeded fault-free sessions (version, compression, auth, link capacity/latency/chunking and schedule drawn): (1) real client <-> real server exchanging generated version-valid frames of every message kind (framegen), compared after normalisation in both directions, with both wire taps parsed by the independent refwire codec (unframed handshake, then valid v5 segments, envelopes not individually compressed); (2) a raw refwire client against the real server and (3) a raw refwire server against the real client, packing several envelopes into one segment and splitting envelopes (up to ~400 KiB) over non-self-contained segments at drawn points. distinct = distinct event-log fingerprints; non-trivial = at least one frame delivered and at least one switch between tasks inside repository code",
 		Assumptions: []string{"the raw peer spells the COMPRESSION option as the library's client does (upper case) and puts at least the 9-byte envelope header into the first part of a split envelope", "frames are generated version-valid by harness/sim/framegen.go, under-approximating validity"}},
 	"C07": {Profile: "client", QuickCases: 480, ThoroughCases: 20000, QuickSecs: 120, ThoroughSecs: 2400, Level: "fault_enumeration",
